@@ -70,14 +70,6 @@ def run_overload(it, fi, lead, values):
     return res, frame
 
 
-def value_for(t, U=None):
-    if t is ANY:
-        return TOP
-    if t is ASTERISK:
-        return A(NoneT)
-    if t is object:
-        return TOP
-    return A(t)
 
 
 def type_errors(frame):
@@ -85,9 +77,6 @@ def type_errors(frame):
                    if (r.exc in TYPE_ERRORS or (r.exc == 'NotImplementedError' and r.what == 'bool()')) and r.definite})
 
 
-def _ops_with_body(reg):
-    for o in reg.ops:
-        yield o
 
 
 def rule_dtype(P) -> RuleResult:
